@@ -62,6 +62,21 @@ def variants(rng, t):
         a = rng.randint(1, len(t) - 1); b = rng.randint(a, len(t))
         return t[:a] + t[b:]
     return rng.choice([rng.choice(NEWS), '', t + ' more', 'pre ' + t, t[:k] + 'Q' + t[k:], t[:k], t[k:], t.upper(), '**' + t.strip() + '**', '_it_ ' + t, t + ' ', 'a**b', 'x_y_z'])
+def virtual_first(rng, raw, acc):
+    """a short target whose first occurrence in the raw view lies inside generated text (comment / change metadata) and which
+    also occurs in the text of the document itself: the matcher has to pass over the generated occurrence (fix D54)"""
+    metas = list(re.finditer(r'\{>>.*?<<\}', raw, re.S))
+    if not metas: return None
+    m = rng.choice(metas); body = m.group(0); cands = []
+    for _ in range(24):
+        if len(body) < 3: break
+        a = rng.randrange(len(body) - 1); t = body[a:a + rng.randint(2, 4)]
+        if '\n' in t or not t.strip(): continue
+        if m.start() <= raw.find(t) < m.end() and any(t in x for x in acc): cands.append(t)
+    if not cands: return None
+    t = rng.choice(cands)
+    return (t, rng.choice(['VIRT', t.upper(), '', t + 'x']), rng.choice([None, 'c']), None)
+
 def gen_batch(rng, din, raw, clean, kind='exact'):
     """returns list of (target, new, comment, index)"""
     acc = [t for t in para_texts(din, 'acc') if len(t.strip()) > 1]
@@ -95,7 +110,9 @@ def gen_batch(rng, din, raw, clean, kind='exact'):
                     pair = [(t1, rng.choice(['L', t1.upper(), '']), None, None), (t2, rng.choice(['R', t2 + '!', 'new']), None, None)]
                     if rng.random() < .5: pair.reverse()
                     edits = pair
+        if acc and raw and rng.random() < .2: edits.append(virtual_first(rng, raw, acc))
     elif kind == 'mixed':
+        if acc and raw and rng.random() < .15: edits.append(virtual_first(rng, raw, acc))
         for _ in range(rng.randint(1, 4)):
             x = rng.random()
             if x < .5 and acc:
@@ -264,6 +281,8 @@ def exact_unique(c, raw, clean):
         # the reader must see it exactly once (raw view first, accepted view as fallback), also with whitespace runs collapsed
         if raw.count(t) > 1: return None
         if raw.count(t) == 0 and clean.count(t) != 1: return None
+        # an occurrence that the raw view shows only inside tracked-deleted text is not a piece of the text that can be edited
+        if clean.count(t) == 0 and re.sub(r'\{--.*?--\}', '\x00', raw, flags=re.S).count(t) == 0: return None
         col = lambda s: re.sub(r'\s+', ' ', s)
         if col(raw).count(col(t)) > 1 or (raw.count(t) == 0 and col(clean).count(col(t)) != 1): return None
         out.append((hits[0][0], hits[0][1], t, n))
